@@ -89,4 +89,22 @@ def preCheck (p : Proto) (reg : List Bytes) (sent accept timeoutHeader : Bytes) 
     | .invalid => .reject codeInvalidArgument
     | _ => .run (req ≠ Gen.compressionIdentity)
 
+/-- `context.WithTimeout` with a duration ≤ 0 yields a context that is already done
+    (`DeadlineExceeded`) when the handler is entered. -/
+def handlerParseTimeout (p : Proto) (timeoutHeader : Bytes) : TimeoutParse :=
+  match p with
+  | .connect => connectParseTimeout timeoutHeader
+  | _ => grpcParseTimeout timeoutHeader
+
+def expiredOnArrival (p : Proto) (timeoutHeader : Bytes) : Bool :=
+  match handlerParseTimeout p timeoutHeader with
+  | .ok nanos => decide (nanos ≤ 0)
+  | _ => false
+
+/-- `NewUnaryHandler`'s gate (`if err := ctx.Err(); err != nil { return nil, err }` in front of
+    the user function, after the request message was received): `none` = the user function
+    runs, `some code` = it does not and the call fails with that code. -/
+def unaryGate (p : Proto) (timeoutHeader : Bytes) : Option Nat :=
+  if expiredOnArrival p timeoutHeader then some codeDeadlineExceeded else none
+
 end ConnectModel
